@@ -21,6 +21,7 @@ func init() {
 		PromiseCAS(c)
 		PromiseSnapshot(c, "R-SNAPSHOT")
 		AtomicCell(c, "R-ATOMIC")
+		StateKind(c, "R-STATEKIND", c.Pkg("fp"))
 	})
 }
 
